@@ -5,8 +5,7 @@ CONSTANTS
   KeySet = {1, 2, 3}
   ValSet = {1, 2}
   HashVals = {}
-  IntKeys = {}
-  NegKeys = {}
+  RKeys = {}
   ShardCounts = {1, 2, 3}
 INVARIANTS TypeOK RouterInRange Equiv OneHome
 PROPERTIES ReadOnly
